@@ -734,6 +734,8 @@ func c12Stripped(c *Ctx, ns *numberScanner, rule string) {
 	c.R.Check(rule, "flush-before-separator", c.P.Pos(f.Pos()), flush, "the digits before an accepted separator must be copied to the result before the range restarts")
 	// the number scanner assembles the fragments (not the raw source range) when a separator was seen
 	usesFrag := false
+	var rewriter *ssa.Function
+	var rewriterAt *ssa.Call
 	instrs(ns.Num, func(b *ssa.BasicBlock, i int, in ssa.Instruction) {
 		st, ok := in.(*ssa.Store)
 		if !ok || !isScannerField(st.Addr, "tokenValue") {
@@ -768,6 +770,22 @@ func c12Stripped(c *Ctx, ns *numberScanner, rule string) {
 			case *ssa.Call:
 				if calleeOf(x) == ns.Frag {
 					usesFrag = true
+				} else if cal := calleeOf(x); cal != nil && !isBuiltinValue(x.Call.Value) && cal.Signature.Results().Len() == 1 && cal.Signature.Results().At(0).Type().String() == "string" {
+					// the text passes through a string -> string function on its way into the token (a function that
+					// is handed no text - a sub-scanner, a builder's String() - produces text, it does not rewrite it)
+					takesText := false
+					for i := 0; i < cal.Signature.Params().Len(); i++ {
+						if cal.Signature.Params().At(i).Type().String() == "string" {
+							takesText = true
+						}
+					}
+					if takesText && !strings.HasPrefix(cal.String(), "strings.Join") && !strings.HasPrefix(cal.String(), "strings.Repeat") {
+						rewriter = cal
+						rewriterAt = x
+					}
+					for _, a := range x.Call.Args {
+						parts(a)
+					}
 				}
 			}
 		}
@@ -779,6 +797,10 @@ func c12Stripped(c *Ctx, ns *numberScanner, rule string) {
 		}
 	})
 	c.R.Check(rule, "assembled-from-fragments", c.P.Pos(ns.Num.Pos()), usesFrag, "when separators occur the token text must be assembled from the (separator-free) fragments")
+	if rewriter != nil {
+		// not provably wrong: a canonical spelling can denote the same number; the analysis does not reason about text
+		c.R.Undecided(rule, "token-text-rewritten", c.P.InstrPos(rewriterAt), "the text of a number token passes through "+c.P.FuncKey(rewriter)+" before it is stored: whether the rewritten text still denotes exactly the number written (`0e5` with its integer part trimmed away is `e5`, not a number) cannot be decided")
+	}
 	// the exponent marker (e / E and the optional sign) is copied as text[end:p] where p is the position
 	// right before the exponent digits: no advance may lie between sampling p and scanning the digits
 	frs := callsTo(ns.Num, ns.Frag)
@@ -1116,9 +1138,15 @@ func c15StartBeforeConsume(c *Ctx, ro *ParserRoles) {
 			n++
 			per[c.P.FuncKey(f)]++
 			cons := fmt.Sprintf("%s: finishNode#%d", c.P.FuncKey(f), per[c.P.FuncKey(f)])
-			// the variadic pos argument: first element stored
+			// the start: the argument that reaches SetPos in finishNode - a parameter of its own (`pos int, end
+			// ...int`), or the first element of the variadic positions
 			var startVal ssa.Value
-			if sl, ok := call.Call.Args[len(call.Call.Args)-1].(*ssa.Slice); ok {
+			if pi := startParamOf(cal); pi >= 0 && pi < len(call.Call.Args) {
+				if _, isSlice := call.Call.Args[pi].Type().Underlying().(*types.Slice); !isSlice {
+					startVal = call.Call.Args[pi]
+				}
+			}
+			if sl, ok := call.Call.Args[len(call.Call.Args)-1].(*ssa.Slice); ok && startVal == nil {
 				if a, ok := sl.X.(*ssa.Alloc); ok {
 					for _, ref := range *a.Referrers() {
 						if ia, ok := ref.(*ssa.IndexAddr); ok {
@@ -1849,4 +1877,37 @@ func (c *Ctx) snapshotRestores(f *ssa.Function, cb *ssa.Call) map[string]bool {
 		}
 	})
 	return out
+}
+
+// startParamOf: the index of the parameter of a node finisher whose value (itself, or its element 0) is handed to
+// SetPos; -1 when not found.
+func startParamOf(fin *ssa.Function) int {
+	res := -1
+	instrs(fin, func(b *ssa.BasicBlock, i int, in ssa.Instruction) {
+		call, ok := in.(ssa.CallInstruction)
+		if !ok {
+			return
+		}
+		cc := call.Common()
+		name := ""
+		if cc.IsInvoke() {
+			name = cc.Method.Name()
+		} else if cal := calleeOf(call); cal != nil {
+			name = fnBase(cal)
+		}
+		if name != "SetPos" || len(cc.Args) == 0 {
+			return
+		}
+		a := cc.Args[len(cc.Args)-1]
+		for _, rt := range plainOrigins.Roots(a) {
+			if rt.Kind == "param" {
+				for k, p := range fin.Params {
+					if ssa.Value(p) == rt.V {
+						res = k
+					}
+				}
+			}
+		}
+	})
+	return res
 }
